@@ -136,7 +136,7 @@ EXPORT errno_t _wcsstr_s_chk(wchar_t *restrict dest, rsize_t dmax,
         len = slen;
         dlen = dmax;
 
-        while (src[i] && dlen) {
+        while (dlen && src[i]) {
 
             /* not a match, not a substring */
             if (dest[i] != src[i]) {
@@ -148,7 +148,7 @@ EXPORT errno_t _wcsstr_s_chk(wchar_t *restrict dest, rsize_t dmax,
             len--;
             dlen--;
 
-            if (src[i] == '\0' || !len) {
+            if (!len || src[i] == '\0') {
                 *substringp = dest;
                 return RCNEGATE(EOK);
             }
